@@ -201,19 +201,31 @@ def rule_tables(ctx, tier):
   ctx.record(R, f.where, "min_n keys", sorted(tab) == list(range(6, 17)), "L = 6..16")
   # ---- (e) linear complexity
   f = repo.func(MOD, "LinearComplexityImpl")
-  pis = local_assign(f, "pi")
-  par = {}
-  for n_ in ast.walk(f.node):
-    for ch in ast.iter_child_nodes(n_):
-      par[id(ch)] = n_
+  # the table handed to ChiSquare, and the parity of m on the path that binds it (read from the path facts: any spelling of the test, either branch order)
+  wl_ = sym.Walker(repo, f)
+  wl_.run()
+  m_par = sym.mk("mod", P("param", f.params()[1]), Poly.const(2))
+  chis = [e for e in wl_.events if e.kind == "call" and str(e.data["name"]).endswith(":ChiSquare") and len(e.data["args"]) >= 2]
+  used = set()
+  for e in chis:
+    used.add(repr(e.data["args"][1]))
+  parity_of = {}
+  for e in wl_.events:
+    if e.kind != "assign" or not isinstance(e.node, ast.Assign) or repr(e.data["value"]) not in used:
+      continue
+    pr = set()
+    for fc in e.facts:
+      if fc[0] == "cmp" and fc[1] in ("Eq", "NotEq") and isinstance(fc[2], Poly) and fc[2] == m_par and isinstance(fc[3], Poly) and fc[3].as_int() in (0, 1):
+        pr.add((fc[1] == "Eq") == (fc[3].as_int() == 0))
+    parity_of.setdefault(id(e.node), set()).update(pr if pr else {None})
+  pis = [a for a in ast.walk(f.node) if isinstance(a, ast.Assign) and id(a) in parity_of]
+  if len(pis) < 2:
+    ctx.incomplete(R, f.where, "pi", "pi is not selected by the parity of m")
   for a in pis:
-    p = par.get(id(a))
-    if not isinstance(p, ast.If) or norm(p.test) not in ("m % 2 == 0", "m % 2 != 1", "m % 2 == 1", "m % 2 != 0"):
+    if parity_of[id(a)] not in ({True}, {False}):
       ctx.incomplete(R, f.where, "pi", "pi is not selected by the parity of m")
       continue
-    test_even = norm(p.test) in ("m % 2 == 0", "m % 2 != 1")
-    in_body = a in p.body
-    even = test_even == in_body
+    even = parity_of[id(a)] == {True}
     have = fold.try_fold(a.value)
     want = refmath.linear_complexity_classes(500 if even else 501)
     if not isinstance(have, list) or len(have) != 7:
@@ -1525,6 +1537,17 @@ def rule_universal(ctx):
   tab = tabs[0]
   ta = as_poly(vi["pre_env"][tab]).as_atom()
   I = as_poly(ta.args[0].as_atom().args[0]) if ta.args[0].as_atom() is not None and ta.args[0].as_atom().kind == "seq" and len(ta.args[0].as_atom().args) == 1 else None
+  # the position of a test pass is what the table records (the loop may count passes from 0 and add the offset itself): first position + pass number
+  kt_ = as_poly(vt["k"])
+  for kind, val, s_, since, v2 in test["body_paths"]:
+    evs = [w.events[x] for x in s_.trace if x >= since]
+    st = [e for e in evs if e.kind == "store" and as_poly(e.data["base"]) == as_poly(vt["head"].env[tab])]
+    if len(st) == 1 and isinstance(st[0].data["value"], Poly) and kt_.as_atom() is not None:
+      pv_ = st[0].data["value"]
+      base_ = pv_ - kt_
+      if not any(a_ == kt_.as_atom() for a_ in base_.all_atoms()) and not (base_ - s1).is_zero():
+        s1, e1, p1 = base_, e1 - s1 + base_, pv_
+      break
   if I is None or not (I - (s0 - 1)).is_zero():
     probs.append("the table starts at %r but positions start at %r: a pattern first seen in the test segment at position p must contribute log2(p - (first position - 1)) "
                  "= log2 of its 1-based index" % (I, s0))
@@ -2026,7 +2049,19 @@ def rule_block(ctx):
   # the block size used: max(20, m after the loop)
   after = vis["after_env"].get(ms[0])
   calls = [e for e in w.events if e.kind == "call" and e.data["name"].endswith(":SplitSequence") and len(e.data["args"]) >= 3]
-  if not calls or not all(isinstance(e.data["args"][2], Poly) and isinstance(after, Poly) and e.data["args"][2] == sym.mk("max", Poly.const(20), after) for e in calls):
+  def is_max(arg, a_, b_, facts):
+    """arg is max(a_, b_): as a value, or chosen by a branch whose test orders the two"""
+    if arg == sym.mk("max", a_, b_) or arg == sym.mk("max", b_, a_):
+      return True
+    def le(x_, y_):          # the path knows x_ <= y_
+      for fc in facts:
+        if fc[0] == "cmp" and isinstance(fc[2], Poly) and isinstance(fc[3], Poly):
+          d_ = fc[2] - fc[3]
+          if (fc[1] in ("Lt", "LtE") and (d_ - (x_ - y_)).is_zero()) or (fc[1] in ("Gt", "GtE") and (d_ - (y_ - x_)).is_zero()):
+            return True
+      return False
+    return (arg == a_ and le(b_, a_)) or (arg == b_ and le(a_, b_))
+  if not calls or not all(isinstance(e.data["args"][2], Poly) and isinstance(after, Poly) and is_max(e.data["args"][2], Poly.const(20), after, e.facts) for e in calls):
     probs.append("the block size is not max(20, m)")
   ctx.record(R, f.where, "block size ladder: doubled while n // m >= 100, at least 20", not probs, "; ".join(sorted(set(probs))) or "M = max(20, least 16 * 2^j with n // M < 100)")
 
